@@ -31,25 +31,23 @@ Proof.
   now apply forallb_expand.
 Qed.
 
-Lemma summary_parts :
-  forallb (disc_from pol_mid []) (scan_mid :: map g_prog goroutines) = true /\
-  forallb (disc_from pol_final []) final_system = true.
-Proof.
-  pose proof summary_checked as H. unfold summary_ok in H.
-  repeat (apply andb_prop in H as [H ?]). auto.
-Qed.
+Lemma mid_checked : check_mid = true.
+Proof. vm_compute. reflexivity. Qed.
+
+Lemma final_checked : check_final = true.
+Proof. vm_compute. reflexivity. Qed.
 
 (* while the workers run (any F, any M): no reachable state has two goroutines
    about to perform conflicting accesses to a Scanner field or captured local *)
 Theorem counters_race_free_mid : forall (n : string -> nat) s,
   reachable (mid_system n) s -> ~ race s.
 Proof.
-  intros n. apply (lockset_race_free pol_mid). apply forallb_mid. apply summary_parts.
+  intros n. apply (lockset_race_free pol_mid). apply forallb_mid. exact mid_checked.
 Qed.
 
 (* after the joins: Scan's plain reads against the goroutines that are still alive *)
 Theorem counters_race_free_final : forall s, reachable final_system s -> ~ race s.
-Proof. apply (lockset_race_free pol_final). apply summary_parts. Qed.
+Proof. apply (lockset_race_free pol_final). exact final_checked. Qed.
 
 (* before the first go statement Scan is alone *)
 Theorem counters_race_free_init : forall s, reachable [scan_init] s -> ~ race s.
